@@ -24,6 +24,7 @@ import (
 	"strconv"
 	"strings"
 	"sync"
+	"time"
 
 	"github.com/parquet-go/parquet-go"
 
@@ -95,6 +96,10 @@ type c08File struct {
 	chunkHi [][]int64   // [rg][col] first byte behind the chunk
 	bad     *c08Bad     // one page whose body was corrupted after the oracle was built (nil: intact file)
 	buffer  func() (parquet.RowGroup, error)
+	// merged-* kinds: MergeRowGroups over two sorted files whose key ranges overlap in part; the
+	// file's rows are those of the two inputs back to back (the order of the merged row group's
+	// column chunks: range views of the lone stretches around the chunks of the overlapping one)
+	merged func(opts ...parquet.FileOption) (parquet.RowGroup, error)
 }
 
 // c08Bad names the page whose checksum no longer matches and the global rows it holds.
@@ -214,10 +219,15 @@ type c08Spec struct {
 	SkipIndex bool
 	Async     bool
 	ReadBuf   int
+	ValBuf    int // rowgroup-rows-valbuf: slots of the per-column value buffer of the row reader
 }
 
 func (sp c08Spec) String() string {
-	return fmt.Sprintf("%s rg=%d col=%d range=%d+%d skipindex=%v async=%v readbuf=%d", sp.Kind, sp.RG, sp.Col, sp.Off, sp.Len, sp.SkipIndex, sp.Async, sp.ReadBuf)
+	s := fmt.Sprintf("%s rg=%d col=%d range=%d+%d skipindex=%v async=%v readbuf=%d", sp.Kind, sp.RG, sp.Col, sp.Off, sp.Len, sp.SkipIndex, sp.Async, sp.ReadBuf)
+	if sp.ValBuf > 0 {
+		s += fmt.Sprintf(" valbuf=%d", sp.ValBuf)
+	}
+	return s
 }
 
 var c08Kinds = []string{
@@ -225,6 +235,9 @@ var c08Kinds = []string{
 	"values",             // parquet.NewColumnChunkValueReader
 	"rowgroup-rows",      // FileRowGroup.Rows()
 	"rowgroup-rowreader", // parquet.NewRowGroupRowReader(rowGroup)
+	// the same reader with a value buffer of 1..7 slots per column (verif hook): every row of a
+	// repeated column then spans several ReadValues refills, as rows of > 170 values do in production
+	"rowgroup-rows-valbuf",
 	"reader-readrows",    // parquet.NewReader(file).SeekToRow/ReadRows
 	"reader-read",        // parquet.NewReader(file).SeekToRow/Read(&row)
 	"generic-reader",     // parquet.NewGenericReader[T](file).SeekToRow/Read
@@ -240,6 +253,10 @@ var c08Kinds = []string{
 	"buffer-rows",  // GenericBuffer[T].Rows()
 	"buffer-pages", // GenericBuffer[T].ColumnChunks()[c].Pages()
 }
+
+// kinds that exist only on the file built by c08MergedFile: the column chunks of
+// MergeRowGroups(sorted A, sorted B) with partly overlapping key ranges (the public route to range views)
+var c08MergedKinds = []string{"merged-pages", "merged-values"}
 
 type c08View struct {
 	mode      string // rows | typed | page | values
@@ -316,8 +333,9 @@ func (f *c08File) open(sp c08Spec) (v *c08View, err error) {
 	v = &c08View{col: sp.Col, loadIndex: func() {}, close: func() {}}
 	var pf *parquet.File
 	needFile := !strings.HasPrefix(sp.Kind, "buffer-")
+	var opts []parquet.FileOption
 	if needFile {
-		opts := []parquet.FileOption{parquet.SkipPageIndex(sp.SkipIndex)}
+		opts = []parquet.FileOption{parquet.SkipPageIndex(sp.SkipIndex)}
 		if sp.Async {
 			opts = append(opts, parquet.FileReadMode(parquet.ReadModeAsync))
 		}
@@ -424,6 +442,9 @@ func (f *c08File) open(sp c08Spec) (v *c08View, err error) {
 	case "rowgroup-rowreader":
 		rgBase()
 		useRows(parquet.NewRowGroupRowReader(pf.RowGroups()[sp.RG]))
+	case "rowgroup-rows-valbuf":
+		rgBase()
+		useRows(parquet.VerifNewRowGroupRows(pf.RowGroups()[sp.RG], max(sp.ValBuf, 1)))
 	case "reader-readrows":
 		v.total = f.n
 		rd := parquet.NewReader(pf)
@@ -508,6 +529,33 @@ func (f *c08File) open(sp c08Spec) (v *c08View, err error) {
 	case "range-pages":
 		v.base, v.total = f.rgStart[sp.RG]+sp.Off, sp.Len
 		usePages(parquet.VerifNewRowRange(pf.RowGroups()[sp.RG], int64(sp.Off), int64(sp.Len)).ColumnChunks()[sp.Col].Pages())
+	case "merged-pages", "merged-values":
+		if f.merged == nil {
+			return nil, fmt.Errorf("not a merged file")
+		}
+		rg, err := f.merged(opts...)
+		if err != nil {
+			return nil, err
+		}
+		if int(rg.NumRows()) != f.n {
+			return nil, fmt.Errorf("merged row group has %d rows, inputs %d", rg.NumRows(), f.n)
+		}
+		v.total = f.n
+		// the merged row group orders its columns by its own (merged) schema: find the leaf by path
+		ci := -1
+		for i, path := range rg.Schema().Columns() {
+			if strings.Join(path, "\x00") == strings.Join(f.schema.Columns()[sp.Col], "\x00") {
+				ci = i
+			}
+		}
+		if ci < 0 {
+			return nil, fmt.Errorf("merged row group has no column %v", f.schema.Columns()[sp.Col])
+		}
+		if sp.Kind == "merged-pages" {
+			usePages(rg.ColumnChunks()[ci].Pages())
+		} else {
+			useValues(parquet.NewColumnChunkValueReader(rg.ColumnChunks()[ci]))
+		}
 	case "buffer-rows":
 		rg, err := f.buffer()
 		if err != nil {
@@ -756,6 +804,9 @@ func (ck *c08Checker) step(op c08Op) (desc string, fail *c08Fail) {
 			}
 		}
 		ck.pos = pos + n
+		if err == nil || err == io.EOF {
+			ck.lastKind, ck.lastNR = "page", n
+		}
 		return finish(n, err, "rows")
 	case "page":
 		tr, nr, err := v.readPage()
@@ -945,17 +996,34 @@ type c08Row struct {
 }
 
 func c08LocalFile(n int, opts ...parquet.WriterOption) (*c08File, error) {
-	rows := make([]c08Row, n)
-	for i := range rows {
-		rows[i] = c08Row{ID: int64(i), S: fmt.Sprintf("s%03d", i%17)}
-		for j := 0; j < i%4; j++ {
-			rows[i].Tags = append(rows[i].Tags, int32(i*10+j))
-		}
-		if i%3 != 0 {
-			x := float64(i)
-			rows[i].Opt = &x
-		}
+	return c08LocalFileTags(n, func(i int) int { return i % 4 }, opts...)
+}
+
+// c08LongListLens: list lengths around the multiples of the row reader's value buffer (170 values):
+// a row of the repeated column then spans several ReadValues refills
+var c08LongListLens = []int{0, 1, 169, 170, 171, 2, 339, 340, 341, 0, 511, 3, 600, 170, 170, 1, 0, 168, 172, 1025}
+
+func c08LongListFile(opts ...parquet.WriterOption) (*c08File, error) {
+	f, err := c08LocalFileTags(3*len(c08LongListLens), func(i int) int { return c08LongListLens[i%len(c08LongListLens)] }, opts...)
+	if f != nil {
+		f.desc = "c08Row long lists " + f.desc
 	}
+	return f, err
+}
+
+func c08MakeRow(i int, ntags int) c08Row {
+	row := c08Row{ID: int64(i), S: fmt.Sprintf("s%03d", i%17)}
+	for j := 0; j < ntags; j++ {
+		row.Tags = append(row.Tags, int32(i*10+j))
+	}
+	if i%3 != 0 {
+		x := float64(i)
+		row.Opt = &x
+	}
+	return row
+}
+
+func c08WriteRows(rows []c08Row, opts ...parquet.WriterOption) ([]byte, error) {
 	var buf bytes.Buffer
 	w := parquet.NewGenericWriter[c08Row](&buf, opts...)
 	for i := range rows { // one row per call: the page buffer size is checked between calls
@@ -965,6 +1033,67 @@ func c08LocalFile(n int, opts ...parquet.WriterOption) (*c08File, error) {
 	}
 	if err := w.Close(); err != nil {
 		return nil, err
+	}
+	return buf.Bytes(), nil
+}
+
+// c08MergedFile: A holds the ids 0..1199 and the even ids of 1200..1599, B the odd ids of
+// 1200..1599 and 1600..2799, both sorted by id; MergeRowGroups cuts the lone stretches (>= 1024 rows,
+// rounded to page boundaries) off as row range views. The rows of the file are A's then B's: the order in which the column chunks of the
+// merged row group hold them.
+func c08MergedFile() (*c08File, error) {
+	var rowsA, rowsB []c08Row
+	for i := 0; i < 2800; i++ {
+		inA := i < 1200 || (i < 1600 && i%2 == 0)
+		if inA {
+			rowsA = append(rowsA, c08MakeRow(i, i%4))
+		} else {
+			rowsB = append(rowsB, c08MakeRow(i, i%4))
+		}
+	}
+	sorted := parquet.SortingWriterConfig(parquet.SortingColumns(parquet.Ascending("id")))
+	dataA, err := c08WriteRows(rowsA, parquet.PageBufferSize(256), sorted)
+	if err != nil {
+		return nil, err
+	}
+	dataB, err := c08WriteRows(rowsB, parquet.PageBufferSize(256), sorted)
+	if err != nil {
+		return nil, err
+	}
+	all := append(append([]c08Row{}, rowsA...), rowsB...)
+	data, err := c08WriteRows(all, parquet.PageBufferSize(256))
+	if err != nil {
+		return nil, err
+	}
+	f := &c08File{name: "c08Row", desc: fmt.Sprintf("c08Row merged A(%d rows)+B(%d rows)", len(rowsA), len(rowsB)), schema: parquet.SchemaOf(c08Row{}),
+		rows: reflect.ValueOf(all), n: len(all), data: data}
+	f.merged = func(opts ...parquet.FileOption) (parquet.RowGroup, error) {
+		a, err := parquet.OpenFile(bytes.NewReader(dataA), int64(len(dataA)), opts...)
+		if err != nil {
+			return nil, err
+		}
+		b, err := parquet.OpenFile(bytes.NewReader(dataB), int64(len(dataB)), opts...)
+		if err != nil {
+			return nil, err
+		}
+		return parquet.MergeRowGroups([]parquet.RowGroup{a.RowGroups()[0], b.RowGroups()[0]},
+			parquet.SortingRowGroupConfig(parquet.SortingColumns(parquet.Ascending("id"))))
+	}
+	return f, c08Oracle(f)
+}
+
+func c08LocalFileTags(n int, tagsLen func(i int) int, opts ...parquet.WriterOption) (*c08File, error) {
+	rows := make([]c08Row, n)
+	for i := range rows {
+		rows[i] = c08MakeRow(i, tagsLen(i))
+	}
+	var buf bytes.Buffer
+	{
+		b, err := c08WriteRows(rows, opts...)
+		if err != nil {
+			return nil, err
+		}
+		buf.Write(b)
 	}
 	f := &c08File{name: "c08Row", desc: fmt.Sprintf("c08Row n=%d", n), schema: parquet.SchemaOf(c08Row{}), rows: reflect.ValueOf(rows), n: n, data: buf.Bytes()}
 	f.buffer = func() (parquet.RowGroup, error) {
@@ -1039,6 +1168,9 @@ func c08RandSpec(f *c08File, r *rand.Rand, kind string) (c08Spec, bool) {
 	}
 	if strings.HasPrefix(kind, "buffer-") {
 		sp.SkipIndex, sp.Async, sp.ReadBuf = false, false, 0
+	}
+	if kind == "rowgroup-rows-valbuf" {
+		sp.ValBuf = []int{1, 1, 2, 3, 5, 7}[r.Intn(6)]
 	}
 	return sp, true
 }
@@ -1163,7 +1295,9 @@ func c08L2(ctx *core.Ctx, f *c08File, sp c08Spec, ops []c08Op, tr *c08Trace, req
 	fail := func(i int, what string) {
 		ctx.Fail("L2", "filepages-mirror "+what, "FilePages and the Lean mirror (seek.run) disagree: "+what, map[string]any{
 			"file": f.desc, "view": sp.String(), "ops": c08OpsString(ops), "op_index": i, "request": req, "model": ans,
-			"impl_outs": strings.Join(tr.outs, " "), "impl_states": strings.Join(tr.states, " ")})
+			"impl_outs": strings.Join(tr.outs, " "), "impl_states": strings.Join(tr.states, " "),
+			"page_offsets": f.offsets[sp.RG][sp.Col], "page_sizes": f.psize[sp.RG][sp.Col], "chunk": []int64{f.chunkLo[sp.RG][sp.Col], f.chunkHi[sp.RG][sp.Col]},
+			"file_sha256": hashHex(f.data), "file_hex": c08HexIfSmall(f.data)})
 	}
 	if !strings.HasPrefix(ans, "ok") {
 		fail(-1, "model-refused-request")
@@ -1334,7 +1468,11 @@ func c08Corrupt(f *c08File, r *rand.Rand, rg, col, page int) *c08File {
 	}
 	g := *f
 	g.data = append([]byte{}, f.data...)
-	g.data[off+size-1-int64(r.Intn(2))] ^= 1 << uint(r.Intn(8))
+	// the last byte of the page is always a body byte; the one before it is the STOP byte of the page
+	// header when the body is one byte long (a flipped header is outside the property: the header
+	// decoder then runs on into the next page)
+	_ = r.Intn(2)
+	g.data[off+size-1] ^= 1 << uint(r.Intn(8))
 	b := f.bounds[rg][col]
 	hi := f.rgStart[rg+1]
 	if page+1 < len(b) {
@@ -1434,6 +1572,140 @@ func (w *c08Worker) corruptCases(f *c08File, r *rand.Rand, origin string, n int)
 			}()
 			w.runCase(g, sp, ops, origin)
 		}
+	}
+}
+
+// ---------------------------------------------------------------- the value-level loop of ReadRows
+
+func c08Join(xs []int) string {
+	s := make([]string, len(xs))
+	for i, x := range xs {
+		s[i] = strconv.Itoa(x)
+	}
+	return strings.Join(s, ",")
+}
+
+// valueLoopCheck reads one row group sequentially through the row reader built with a value buffer
+// of `bufsize` slots per column. L1: the rows are the written ones. L2: for every column the number
+// of rows and the number of values appended to each row, read after read, are those of the Lean
+// mirror of the loop (`rowsv.run`) run on the column's pages of repetition levels cut into batches
+// of `bufsize`.
+func (w *c08Worker) valueLoopCheck(f *c08File, r *rand.Rand, origin string) {
+	ctx := w.ctx
+	if f.nrg() == 0 || f.bad != nil {
+		return
+	}
+	rg := r.Intn(f.nrg())
+	base, tot := f.rgStart[rg], f.rgStart[rg+1]-f.rgStart[rg]
+	if tot == 0 {
+		return
+	}
+	bufsize := []int{1, 2, 3, 5, 8, 170}[r.Intn(6)]
+	pf, err := parquet.OpenFile(bytes.NewReader(f.data), int64(len(f.data)))
+	if err != nil {
+		return
+	}
+	desc := fmt.Sprintf("%s|%s|value-loop rg=%d valbuf=%d", f.desc, hashHex(f.data), rg, bufsize)
+	var batches []int
+	var counts []int
+	lens := make([][][]int, f.ncol) // [col][read][row]
+	var fail string
+	func() {
+		defer func() {
+			if p := recover(); p != nil {
+				fail = fmt.Sprintf("PANIC %v", p)
+			}
+		}()
+		rr := parquet.VerifNewRowGroupRows(pf.RowGroups()[rg], bufsize)
+		defer rr.Close()
+		pos := 0
+		for len(batches) < 60 {
+			b := []int{1, 1, 2, 3, 7, 10, 64}[r.Intn(7)]
+			buf := make([]parquet.Row, b)
+			n, err := rr.ReadRows(buf)
+			batches, counts = append(batches, b), append(counts, n)
+			tr := rowsToTriples(buf[:n], f.ncol)
+			for c := 0; c < f.ncol; c++ {
+				var l []int
+				for i := 0; i < n; i++ {
+					l = append(l, len(tr[i][c]))
+					if fail == "" && (pos+i >= tot || !triplesEqual(tr[i][c], f.rowTr[c][base+pos+i])) {
+						fail = fmt.Sprintf("read #%d (ReadRows(%d) at row %d): row %d column %d holds %v", len(batches)-1, b, pos, pos+i, c, tr[i][c])
+					}
+				}
+				lens[c] = append(lens[c], l)
+			}
+			want := min(b, tot-pos)
+			if fail == "" && n != want {
+				fail = fmt.Sprintf("read #%d (ReadRows(%d) at row %d of %d) returned %d rows (%s)", len(batches)-1, b, pos, tot, n, errName(err))
+			}
+			pos += n
+			if err != nil && err != io.EOF && fail == "" {
+				fail = fmt.Sprintf("read #%d (ReadRows(%d) at row %d) failed: %v", len(batches)-1, b, pos, err)
+			}
+			if err != nil || n == 0 {
+				break
+			}
+		}
+	}()
+	ctx.Case(desc+"|"+c08Join(batches), false)
+	ctx.Hist("value-loop-valbuf", strconv.Itoa(bufsize))
+	if fail != "" {
+		ctx.Fail("L1", "rowgroup-rows-valbuf-sequential-wrong-rows", "the row reader with a small value buffer does not return the written rows: "+fail,
+			map[string]any{"file": f.desc, "origin": origin, "row_group": rg, "valbuf": bufsize, "batches": batches, "file_sha256": hashHex(f.data)})
+		return
+	}
+	if w.d == nil {
+		return
+	}
+	for c := 0; c < f.ncol; c++ {
+		bounds := f.bounds[rg][c]
+		if len(bounds) == 0 {
+			bounds = []int64{0}
+		}
+		var pages []string
+		for pi := range bounds {
+			lo, hi := int(bounds[pi]), tot
+			if pi+1 < len(bounds) {
+				hi = int(bounds[pi+1])
+			}
+			var reps []int
+			for row := lo; row < hi; row++ {
+				for _, t := range f.rowTr[c][base+row] {
+					reps = append(reps, int(t.Rep))
+				}
+			}
+			if len(reps) == 0 {
+				pages = nil
+				break
+			}
+			pages = append(pages, c08Join(reps))
+		}
+		if pages == nil {
+			continue
+		}
+		var want []string
+		for i := range batches {
+			want = append(want, fmt.Sprintf("%d:%s", counts[i], c08Join(lens[c][i])))
+		}
+		req := fmt.Sprintf("rowsv.run %d %s %s", bufsize, c08Join(batches), strings.Join(pages, "|"))
+		col := c
+		ctx.Hist("l2-layers", "value-loop")
+		w.reqs = append(w.reqs, req)
+		w.pend = append(w.pend, func(ans string) {
+			got := strings.Fields(ans)
+			ok := len(got) == len(want)+1 && got[0] == "ok"
+			for i := 0; ok && i < len(want); i++ {
+				ok = got[i+1] == want[i]
+			}
+			if !ok {
+				ctx.Fail("L2", "readrows-value-loop-mirror", "the loop of ReadRows and its Lean mirror disagree on the rows / values per row of a column",
+					map[string]any{"file": f.desc, "origin": origin, "row_group": rg, "column": col, "valbuf": bufsize, "request": req, "model": ans, "impl": strings.Join(want, " ")})
+			}
+		})
+	}
+	if len(w.reqs) >= 1000 {
+		w.flush()
 	}
 }
 
@@ -1674,15 +1946,38 @@ func c08LayerRequest(f *c08File, sp c08Spec, ops []c08Op) string {
 	}
 	rowsKind := false
 	total := f.n
+	// how a read of batch b is written for the model: ReadRows(b), b calls of Read(&v), GenericReader.Read of b
+	readTok := func(b int64) string { return fmt.Sprintf("r%d", b) }
 	switch sp.Kind {
-	case "rowgroup-rows", "rowgroup-rowreader":
+	case "rowgroup-rows", "rowgroup-rowreader", "rowgroup-rows-valbuf":
 		rowsKind, total = true, f.rgStart[sp.RG+1]-f.rgStart[sp.RG]
+	case "range-rows":
+		rowsKind, total = true, sp.Len
 	case "multi-rows", "reader-readrows":
 		rowsKind = true
+	case "reader-read":
+		rowsKind = true
+		readTok = func(b int64) string { return fmt.Sprintf("t%d", b) }
+	case "generic-reader":
+		rowsKind = true
+		readTok = func(b int64) string { return fmt.Sprintf("g%d", b) }
+	case "reader-mixed", "generic-reader-mixed":
+		rowsKind = true
+		typed := "t"
+		if sp.Kind == "generic-reader-mixed" {
+			typed = "g"
+		}
+		readTok = func(b int64) string {
+			if b%2 == 1 {
+				return fmt.Sprintf("%s%d", typed, b)
+			}
+			return fmt.Sprintf("r%d", b)
+		}
 	case "multi-pages", "range-pages":
 	default:
 		return ""
 	}
+	_ = total
 	var sb strings.Builder
 	for i, o := range ops {
 		if i > 0 {
@@ -1691,14 +1986,12 @@ func c08LayerRequest(f *c08File, sp c08Spec, ops []c08Op) string {
 		switch {
 		case o.K == 'i' || (o.K == 's' && o.A < 0):
 			return "" // lazy index load changes the chunk readers opened later; negative indexes are L1 only
-		case o.K == 's' && rowsKind && int(o.A) > total:
-			return "" // reader_seek_refines_partial: seeks up to the end
 		case o.K == 's':
-			fmt.Fprintf(&sb, "s%d", o.A)
+			fmt.Fprintf(&sb, "s%d", o.A) // beyond the last row too (reader_seek_refines)
 		case o.K == 'z':
 			sb.WriteByte('z')
 		case rowsKind:
-			fmt.Fprintf(&sb, "r%d", max(o.A, 1))
+			sb.WriteString(readTok(max(o.A, 1)))
 		default:
 			sb.WriteByte('r')
 		}
@@ -1727,9 +2020,10 @@ func c08LayerRequest(f *c08File, sp c08Spec, ops []c08Op) string {
 	var cols []string
 	for col := 0; col < f.ncol; col++ {
 		c := ""
-		if sp.Kind == "rowgroup-rows" || sp.Kind == "rowgroup-rowreader" {
+		switch sp.Kind {
+		case "rowgroup-rows", "rowgroup-rowreader", "rowgroup-rows-valbuf", "range-rows":
 			c = chunk(sp.RG, col)
-		} else {
+		default:
 			c = column(col)
 		}
 		if c == "" {
@@ -1737,7 +2031,20 @@ func c08LayerRequest(f *c08File, sp c08Spec, ops []c08Op) string {
 		}
 		cols = append(cols, c)
 	}
+	switch sp.Kind {
+	case "range-rows":
+		return fmt.Sprintf("rrows.run %s %d %d %d %s", strings.Join(cols, ";"), idx, sp.Off, sp.Len, sb.String())
+	case "reader-read", "generic-reader", "reader-mixed", "generic-reader-mixed":
+		return fmt.Sprintf("readerx.run %s %d %s", strings.Join(cols, ";"), idx, sb.String())
+	}
 	return fmt.Sprintf("rows.run %s %d %s", strings.Join(cols, ";"), idx, sb.String())
+}
+
+func c08HexIfSmall(b []byte) string {
+	if len(b) > 400000 {
+		return ""
+	}
+	return hex.EncodeToString(b)
 }
 
 func hashHex(b []byte) string {
@@ -1781,6 +2088,8 @@ var c08CorruptRegressions = []struct{ name, ops string }{
 	{"failed read, seek to the next page", "s10 r1 s20 r1 r1"},
 }
 
+var c08T0 = time.Now()
+
 func RunC08(ctx *core.Ctx) {
 	ctx.SetRule("files of catalogue struct types (nested/repeated/optional columns, random rows) under random writer configurations (page version, codec, page buffers from 1 byte = one page per row, several row groups) x open options (page index loaded or skipped, sync/async, read buffer 1..4096) x reader kind (FilePages, value reader, row group rows, Reader.ReadRows/Read, GenericReader, MultiRowGroup rows/pages/values, row range views, buffers) x random histories of up to 200 SeekToRow/read/lazy-index-load ops aimed at the cached page, page boundaries +-1 and the end; distinct by file+view+history; non-trivial = the history seeks backward at least once on a file of >= 2 rows")
 	var mu sync.Mutex
@@ -1818,6 +2127,9 @@ func RunC08(ctx *core.Ctx) {
 							if strings.HasPrefix(kind, "range-") {
 								sp.Off, sp.Len = 0, 100
 							}
+							if kind == "rowgroup-rows-valbuf" {
+								sp.ValBuf = 1 + col
+							}
 							if strings.HasPrefix(kind, "buffer-") && skip {
 								continue
 							}
@@ -1850,11 +2162,86 @@ func RunC08(ctx *core.Ctx) {
 				}
 			}
 		}
+		// rows of a repeated column longer than the value buffer of the row reader (public API only)
+		if lf, err := c08LongListFile(parquet.PageBufferSize(4096)); err != nil {
+			ctx.Fail("L1", "oracle-sequential-read-differs", "long-list file: "+err.Error(), nil)
+		} else {
+			r := ctx.Rand("c08/long-lists")
+			for _, kind := range c08Kinds {
+				for h := 0; h < 3; h++ {
+					sp, ok := c08RandSpec(lf, r, kind)
+					if !ok {
+						continue
+					}
+					if h == 0 {
+						sp.Col = 2 // tags
+					}
+					v, err := lf.open(sp)
+					if err != nil {
+						ctx.Fail("L1", kind+"-open-error", "opening the view failed: "+err.Error(), map[string]any{"file": lf.desc, "view": sp.String()})
+						continue
+					}
+					ops := c08RandOps(lf, sp, v, r)
+					func() {
+						defer func() { recover() }()
+						v.close()
+					}()
+					w.runCase(lf, sp, ops, "long-list file")
+				}
+			}
+			for i := 0; i < 6; i++ {
+				w.valueLoopCheck(lf, r, "long-list file")
+			}
+		}
+		// the public route to row range views: column chunks of a merged row group
+		if mf, err := c08MergedFile(); err != nil {
+			ctx.Fail("L1", "oracle-sequential-read-differs", "merged file: "+err.Error(), nil)
+		} else {
+			r := ctx.Rand("c08/merged")
+			borders := []int{1200, 1400, 1600, 2800}
+			for _, kind := range c08MergedKinds {
+				for col := 0; col < mf.ncol; col++ {
+					// a seek into the first range view, then a sequential read across its end and well into
+					// the next segment
+					for _, k := range []int64{1, 7, 33} {
+						ops := []c08Op{{K: 's', A: k}}
+						for i := 0; i < 90; i++ {
+							ops = append(ops, c08Op{K: 'r', A: 64})
+						}
+						w.runCase(mf, c08Spec{Kind: kind, Col: col, SkipIndex: k == 7}, ops, "merged file: read across the end of a range view")
+					}
+					for h := 0; h < ctx.Scale(4, 12); h++ {
+						sp := c08Spec{Kind: kind, Col: col, SkipIndex: r.Intn(2) == 0, Async: r.Intn(3) == 0, ReadBuf: []int{0, 0, 16, 300, 4096}[r.Intn(5)]}
+						v, err := mf.open(sp)
+						if err != nil {
+							ctx.Fail("L1", kind+"-open-error", "opening the view failed: "+err.Error(), map[string]any{"file": mf.desc, "view": sp.String()})
+							continue
+						}
+						ops := c08RandOps(mf, sp, v, r)
+						func() {
+							defer func() { recover() }()
+							v.close()
+						}()
+						// aim some seeks at the borders of the segments
+						for i := range ops {
+							if ops[i].K == 's' && r.Intn(3) == 0 {
+								ops[i].A = int64(max(borders[r.Intn(len(borders))]+r.Intn(5)-2-r.Intn(2)*r.Intn(40), 0))
+							}
+						}
+						w.runCase(mf, sp, ops, "merged file")
+					}
+				}
+			}
+		}
 		w.flush()
 	}
+	if os.Getenv("VERIF_C08_TIMING") != "" {
+		fmt.Fprintf(os.Stderr, "c08: fixed part done %v\n", time.Since(c08T0))
+	}
 	// 2. random files x views x histories
-	filesPerType := ctx.Scale(6, 150)
-	histsPerView := ctx.Scale(2, 4)
+	// thorough = 9x the random part of quick (the random part of quick is ~35 s wall on a busy box)
+	filesPerType := ctx.Scale(6, 36)
+	histsPerView := ctx.Scale(2, 3)
 	var wg sync.WaitGroup
 	sem := make(chan struct{}, 16)
 	for _, e := range gen.Catalog {
@@ -1889,6 +2276,9 @@ func RunC08(ctx *core.Ctx) {
 					w.sliceCheck(f, r, origin)
 				}
 				w.corruptCases(f, r, origin, ctx.Scale(1, 3))
+				for i := 0; i < ctx.Scale(2, 4); i++ {
+					w.valueLoopCheck(f, r, origin)
+				}
 				for _, kind := range c08Kinds {
 					for h := 0; h < histsPerView; h++ {
 						sp, ok := c08RandSpec(f, r, kind)
@@ -1919,4 +2309,7 @@ func RunC08(ctx *core.Ctx) {
 		}(e)
 	}
 	wg.Wait()
+	if os.Getenv("VERIF_C08_TIMING") != "" {
+		fmt.Fprintf(os.Stderr, "c08: random part done %v\n", time.Since(c08T0))
+	}
 }
